@@ -27,18 +27,23 @@ RULE = ("Kruskal tensors with 1-4 modes (1-way included), mode sizes 1-4, ranks 
         "'all'), sort on/off, both norm types, mode=; every component permutation for R<=4 (thorough; sampled in quick) and "
         "subsets; fixsigns(other) against references realising every sign pattern of the per-mode correlations (2^N); "
         "non-trivial = rank>=2 or more than one cell, not all weights zero; distinct = distinct (op,args)")
-CORRESPONDENCE_ONLY = ["permute (mode permutation: result compared with the model and den(result)(i) = den(K)(i o order^-1) evaluated per case)",
-                       "update (compared with the model; all modes = from_vector evaluated per case)",
-                       "from_vector(tovec(K, include_weights=False)) (unit weights; compared with the model)",
-                       "tolist() / tolist(mode) (compared with the model; unit-weight tensor of the returned factors denotes K, evaluated per case)",
-                       "normal form: unit columns, descending order, all-one weights after absorption (evaluated on pyttb's result per case; only 'no negative weight' is a theorem)",
-                       "score (final arrange checked against arrange_perm of the normalised receiver with the returned permutation)"]
-NOTES = ["A-22 (fixsigns(other) normalises `other` in place) belongs to C05; A-45 (arrange(permutation) accepts non-permutations) to C19: "
-         "theorem C08_invariant_arrange_perm requires is_perm, the generator only sends permutations"]
-ASSUMPTIONS = ["normal-form theorems assume the norm oracle is a norm (positive homogeneous, definite) — numpy's np.linalg.norm itself is not verified",
+CORRESPONDENCE_ONLY = ["score: the matching itself (score value, choice of best_perm) is not claimed; only the final arrange(permutation) is a theorem",
+                       "fixsigns(other): the two in-place normalisations + paired flips are compared with the model per case (the theorems "
+                       "cover invariance, parity and the sign-agreement normal form of the model)",
+                       "normal form w.r.t. numpy's own norm: the theorems assume the norm oracle satisfies nrm_spec (positively homogeneous, even, "
+                       "zero on zero columns; instantiated and proved for the exact 1-norm over Qc); np.linalg.norm itself is tied by the "
+                       "per-case evaluation of unit columns / zero weights on pyttb's result"]
+NOTES = ["A-29 (fixsigns(other) odd flips), A-22 (fixsigns(other) normalised `other` in place) and A-45 (arrange accepted non-permutations) are "
+         "repaired in /repo: the model IS the repaired pairing rule, fixsigns(other) must leave `other` untouched (compared per case), no trigger "
+         "or witness remains; theorem C08_invariant_arrange_perm requires is_perm, the generator only sends permutations"]
+ASSUMPTIONS = ["normal-form theorems assume the norm oracle is a norm (nrm_scale, nrm_flip, nrm_zero, pos_inv) — numpy's np.linalg.norm itself is not verified",
+               "tolist(): the oracles must satisfy sgn(w) * root(|w|)^N = w (np.sign / np.fabs / np.power are not verified)",
                "floating-point rounding is not modelled: pyttb's results are compared with the exact rational model within 1e-9 relative"]
-EXPLANATION = ("Invariance theorems hold for every norm oracle that is positive on non-zero columns; the correspondence stream ties "
-               "the executable model (exact oracles over Qc / Z) to pyttb/ktensor.py on generated inputs.")
+EXPLANATION = ("Invariance theorems hold for every norm oracle that is positive on non-zero columns; normal-form theorems (unit or zero "
+               "columns, weight 0 for zero columns, all-one absorbed weights, descending order via the argsort permutation, no negative "
+               "weight, sign agreement after fixsigns(other)) hold for every oracle meeting nrm_spec; permute / update / from_vector / "
+               "tolist / score's arrange are theorems on the same model. The correspondence stream ties the executable model (exact "
+               "oracles over Qc / Z) to pyttb/ktensor.py on generated inputs and re-evaluates every normal-form clause on pyttb's result.")
 
 
 # ----------------------------------------------------------------------------------------------------------------
